@@ -5,10 +5,17 @@
 (*                                                                         *)
 (* The disk is two files, the destination and the temporary sibling:       *)
 (*     disk = [dest |-> F, tmp |-> F]                                      *)
-(*     F    = [k |-> "absent"|"old"|"new"|"dir"|"torn", n |-> bytes]       *)
+(*     F    = [k |-> "absent"|"old"|"new"|"stale"|"dir"|"torn",            *)
+(*             n |-> bytes, junk |-> bytes]                                *)
 (* "old" is the complete file that was there before the save, ("new", n)   *)
-(* a file created by this save into which n payload bytes have gone; it is *)
-(* the complete new file iff n = cfg.size.  (For the sequential writers n  *)
+(* a file opened by this save into which n payload bytes have gone; it is  *)
+(* the complete new file iff n = cfg.size and junk = 0.  ("stale", junk =  *)
+(* k) is a temporary file of k foreign bytes that an earlier, killed save  *)
+(* left behind (cfg.stale = k, 0 = none); junk counts the foreign bytes    *)
+(* still in a file beyond what this save has written: opening WITH         *)
+(* truncation (PostCreate) empties the file, opening without it            *)
+(* (PostOpenKeep) keeps them, and every written byte overwrites one.       *)
+(* So the temporary file must be created empty.  (For the sequential writers n  *)
 (* is the length of the prefix written; for the compound-file writer it is *)
 (* the volume written: both are complete exactly when every write of the   *)
 (* fault-free save has been done.)                                         *)
@@ -24,7 +31,8 @@
 (* system call left it.                                                    *)
 (*                                                                         *)
 (* cfg (constant during a behaviour):                                      *)
-(*   mode "path"|"sink", chunks (sizes), size = their sum, existed,        *)
+(*   mode "path"|"sink", chunks (sizes), size = their sum, existed, stale   *)
+(*   (bytes of a left-over temporary file, 0 = none),                      *)
 (*   buffered (FALSE: every chunk is written directly - the compound-file  *)
 (*   writer of the password instances), buildFirst (payload built before   *)
 (*   the temporary file is created - password instances)                   *)
@@ -40,17 +48,19 @@
 EXTENDS Naturals, Sequences, FiniteSets, TLC
 
 CONSTANTS BufCap,     \* capacity of the user-space buffer (8192 in the library)
-          Deviant     \* "none" | "dropflush" | "unwrap" | "inplace"
+          Deviant     \* "none" | "dropflush" | "unwrap" | "inplace" | "notrunc"
 
 VARIABLES cfg, env, disk, sink, pc, nxt, buf, pend, phase, failed, ret
 vars == <<cfg, env, disk, sink, pc, nxt, buf, pend, phase, failed, ret>>
 
 (* ---- files and the file-system semantics of the calls ------------------ *)
-Absent    == [k |-> "absent", n |-> 0]
-Old       == [k |-> "old", n |-> 0]
-Dir       == [k |-> "dir", n |-> 0]
-Torn      == [k |-> "torn", n |-> 0]
-NewPfx(n) == [k |-> "new", n |-> n]
+Absent    == [k |-> "absent", n |-> 0, junk |-> 0]
+Old       == [k |-> "old", n |-> 0, junk |-> 0]
+Dir       == [k |-> "dir", n |-> 0, junk |-> 0]
+Torn      == [k |-> "torn", n |-> 0, junk |-> 0]
+NewPfx(n) == [k |-> "new", n |-> n, junk |-> 0]
+Stale(j)  == [k |-> "stale", n |-> 0, junk |-> j]       \* left behind by an earlier save that was killed
+Tmp0(c)   == IF c.stale > 0 THEN Stale(c.stale) ELSE Absent
 
 RECURSIVE SumSeq(_)
 SumSeq(s) == IF s = <<>> THEN 0 ELSE Head(s) + SumSeq(Tail(s))
@@ -60,8 +70,14 @@ Whole(f, c)  == f = Dest0(c) \/ f = NewPfx(c.size)
 
 (* plain operators: used by the actions below and, on the logged system calls, by Trace_SaveAtomic *)
 PostCreate(d, f)   == [d EXCEPT ![f] = NewPfx(0)]                       \* open(O_CREAT|O_TRUNC) = fd
+(* open(O_CREAT) without O_TRUNC = fd: an absent file is created empty, the bytes of an existing one stay *)
+PostOpenKeep(d, f) == [d EXCEPT ![f] = IF @.k = "absent" THEN NewPfx(0)
+                                       ELSE IF @.k = "stale" THEN [k |-> "new", n |-> 0, junk |-> @.junk]
+                                       ELSE @]
 PostWrite(d, f, m) == IF m = 0 THEN d
-                      ELSE [d EXCEPT ![f] = IF @.k = "new" THEN NewPfx(@.n + m) ELSE Torn]
+                      ELSE [d EXCEPT ![f] = IF @.k = "new"
+                                            THEN [k |-> "new", n |-> @.n + m, junk |-> IF @.junk > m THEN @.junk - m ELSE 0]
+                                            ELSE Torn]
 PostRenameG(d, f, g) == IF f = g THEN d ELSE [d EXCEPT ![g] = d[f], ![f] = Absent]   \* rename(f, g) = 0
 PostRename(d)      == PostRenameG(d, "tmp", "dest")
 PostUnlink(d, f)   == [d EXCEPT ![f] = Absent]
@@ -102,7 +118,7 @@ Create(res) ==
   /\ ResAllowed("create", res, 0)
   /\ Called(0)
   /\ IF res = "ok"
-     THEN /\ disk' = PostCreate(disk, Target)
+     THEN /\ disk' = IF Deviant = "notrunc" THEN PostOpenKeep(disk, Target) ELSE PostCreate(disk, Target)
           /\ pc' = IF cfg.buildFirst THEN "write" ELSE "build"
           /\ UNCHANGED <<failed, ret>>
      ELSE /\ IF Deviant = "unwrap" /\ cfg.buildFirst
@@ -237,7 +253,7 @@ Next == Crash \/ Terminated \/ (~CrashNow /\ Saver)
 InitWith(c, p) ==
   /\ cfg = c
   /\ env = [plan |-> p, calls |-> 0, writes |-> 0]
-  /\ disk = [dest |-> Dest0(c), tmp |-> Absent]
+  /\ disk = [dest |-> Dest0(c), tmp |-> Tmp0(c)]
   /\ sink = [got |-> 0, bad |-> FALSE]
   /\ pc = IF c.mode = "sink" \/ c.buildFirst THEN "build" ELSE "create"
   /\ nxt = 1 /\ buf = 0 /\ pend = 0 /\ phase = "direct" /\ failed = FALSE /\ ret = "none"
